@@ -99,10 +99,10 @@ def pipeline_part(c, pid):
         pres = [(r["job"], x) for r in res for x in r["stats"].get("contracts", {}).get("pre_false", [])]
         c.bounded["contract_monitor"] = {
             "evaluations": calls,
-            "distinct_nontrivial": calls - npre,
+            "distinct_nontrivial": len(set(x for r in res for x in r["stats"].get("contracts", {}).get("shapes", []))),
             "precondition_false": npre,
             "postcondition_false": len(posts),
-            "rule": "requires/ensures text of contracts/fixes.py evaluated by CPython around every real _fix_violation call of the pipeline runs (bases under contract only); non-trivial = the assumed precondition V_F held; a false precondition is an unmet ASSUMPTION of the deductive part (reported, not a violation), a false postcondition is a finding",
+            "rule": "requires/ensures text of contracts/fixes.py evaluated by CPython around every real _fix_violation call of the pipeline runs (bases under contract only); distinct = different (base, rule, classes of the region's tokens, action) among the calls whose precondition V_F held (hash-counted per run, capped at 4000 per run); a false precondition is an unmet ASSUMPTION of the deductive part (reported, not a violation), a false postcondition is a finding",
             "examples_precondition_false": [list(x) for _, x in pres[:5]],
         }
         for job, x in pres[:3]:
